@@ -50,7 +50,7 @@ func countFeatures(rep *vc.Report, c *ng.Case) {
 // --------------------------------------------------------------------------------------------- C08
 
 func runC08(cfg *vc.Config, rep *vc.Report) {
-	cfg.Cases(40000, 400000, func(i int, r *vc.Rand) {
+	cfg.Cases(40000, 3000000, func(i int, r *vc.Rand) {
 		g := ng.FullCfg()
 		g.Break = r.Chance(1, 8)
 		c := ng.Generate(r, g)
@@ -147,7 +147,7 @@ func overdrawCheck(c *ng.Case, ps []ng.Posting) (viol string, tight bool) {
 }
 
 func runC01(cfg *vc.Config, rep *vc.Report) {
-	cfg.Cases(40000, 300000, func(i int, r *vc.Rand) {
+	cfg.Cases(40000, 3000000, func(i int, r *vc.Rand) {
 		c := ng.Generate(r, ng.OverdrawCfg())
 		text := c.Prog.String()
 		rep.Current(map[string]any{"index": i, "script": text, "vars": c.World.Vars})
